@@ -1,7 +1,8 @@
 //go:build verif
 
-// Add-only oracle for /verif: dumps the block graph of SSA functions before and after one of the
-// control-flow passes.  Never compiled without the `verif` build tag, never committed to /repo.
+// Add-only oracle for /verif: dumps the block graph of SSA functions before and after each of a
+// sequence of control-flow passes.  Never compiled without the `verif` build tag, never committed
+// to /repo.
 package ctrlflow
 
 import (
@@ -12,140 +13,77 @@ import (
 	"go/types"
 	mathrand "math/rand"
 	"sort"
+	"strings"
 
 	"golang.org/x/tools/go/ssa"
 	"golang.org/x/tools/go/ssa/ssautil"
 )
 
+type VerifInstr struct {
+	ID    int      `json:"id"`
+	Kind  string   `json:"kind"`            // phi, binop, other
+	Edges []*int64 `json:"edges,omitempty"` // phi: constant int edges (null = not a constant int)
+	Text  string   `json:"text,omitempty"`
+}
+
 type VerifBlock struct {
-	ID      int      `json:"id"`
-	Comment string   `json:"comment"`
-	Term    string   `json:"term"` // jump, if, return, panic, none
-	Succs   []int    `json:"succs"`
-	Preds   []int    `json:"preds"`
-	Body    []string `json:"body"`            // instructions before the terminator, printed
-	PhiInts []int64  `json:"phi_ints"`        // constant edges of a leading phi (nil when not all constants)
-	CmpOp   string   `json:"cmp_op,omitempty"`  // the block's condition is  phi OP constant
-	CmpInt  int64    `json:"cmp_int,omitempty"` // that constant
-	CmpPhi  bool     `json:"cmp_phi,omitempty"` // X of that comparison is a phi
-	CmpPhiBlock int  `json:"cmp_phi_block"`     // block of that phi, -1 if none
+	ID      int          `json:"id"`
+	Comment string       `json:"comment"`
+	Term    string       `json:"term"` // jump, if, return, panic, none
+	TermID  int          `json:"term_id"`
+	Succs   []int        `json:"succs"`
+	Preds   []int        `json:"preds"`
+	Instrs  []VerifInstr `json:"instrs"` // without the terminator
+	// the condition of an `if` terminator when it is  phi OP constant-int  computed in this block
+	CondInstr int    `json:"cond_instr"` // id of that BinOp, -1 otherwise
+	CondPhi   int    `json:"cond_phi"`
+	CondOp    string `json:"cond_op,omitempty"`
+	CondInt   int64  `json:"cond_int"`
+}
+
+type VerifStage struct {
+	Pass   string       `json:"pass"`
+	Ok     bool         `json:"ok"`
+	Panic  string       `json:"panic,omitempty"`
+	Blocks []VerifBlock `json:"blocks"` // in ssaFunc.Blocks order
+	Info   [][2]int64   `json:"info,omitempty"`
 }
 
 type VerifFunc struct {
 	Name   string       `json:"name"`
-	Before []VerifBlock `json:"before"`
-	After  []VerifBlock `json:"after"` // in ssaFunc.Blocks order
-	Info   [][2]int64   `json:"info"`  // flatten: (StoreVar, CompareVar) per edge
-	Ok     bool         `json:"ok"`    // pass-specific return value
-	Panic  string       `json:"panic,omitempty"`
+	Stages []VerifStage `json:"stages"` // stage 0 = "initial"
 }
 
-func verifDumpBlocks(fn *ssa.Function, ids map[*ssa.BasicBlock]int) []VerifBlock {
-	for _, b := range fn.Blocks {
-		if _, ok := ids[b]; !ok {
-			ids[b] = len(ids)
-		}
+type verifIDs struct {
+	blocks map[*ssa.BasicBlock]int
+	instrs map[ssa.Instruction]int
+}
+
+func (v *verifIDs) block(b *ssa.BasicBlock) int {
+	if b == nil {
+		return -1
 	}
-	id := func(b *ssa.BasicBlock) int {
-		if b == nil {
-			return -1
-		}
-		if i, ok := ids[b]; ok {
-			return i
-		}
-		return -2 // a block that is not in fn.Blocks
+	if i, ok := v.blocks[b]; ok {
+		return i
 	}
-	constInt := func(v ssa.Value) (int64, bool) {
-		c, ok := v.(*ssa.Const)
-		if !ok || c.Value == nil || c.Value.Kind() != constant.Int {
-			return 0, false
-		}
-		return c.Int64(), true
+	v.blocks[b] = len(v.blocks)
+	return v.blocks[b]
+}
+
+func (v *verifIDs) instr(i ssa.Instruction) int {
+	if id, ok := v.instrs[i]; ok {
+		return id
 	}
-	var out []VerifBlock
-	for _, b := range fn.Blocks {
-		vb := VerifBlock{ID: id(b), Comment: b.Comment, Term: "none", Succs: []int{}, Preds: []int{}, Body: []string{}, CmpPhiBlock: -1}
-		for _, s := range b.Succs {
-			vb.Succs = append(vb.Succs, id(s))
-		}
-		for _, p := range b.Preds {
-			vb.Preds = append(vb.Preds, id(p))
-		}
-		for i, instr := range b.Instrs {
-			last := i == len(b.Instrs)-1
-			switch x := instr.(type) {
-			case *ssa.Jump:
-				if last {
-					vb.Term = "jump"
-					continue
-				}
-			case *ssa.If:
-				if last {
-					vb.Term = "if"
-					if bo, ok := x.Cond.(*ssa.BinOp); ok {
-						if c, ok := constInt(bo.Y); ok {
-							if phi, ok := bo.X.(*ssa.Phi); ok {
-								vb.CmpOp, vb.CmpInt, vb.CmpPhi = bo.Op.String(), c, true
-								for _, ob := range fn.Blocks {
-									for _, oi := range ob.Instrs {
-										if oi == ssa.Instruction(phi) {
-											vb.CmpPhiBlock = id(ob)
-										}
-									}
-								}
-							}
-						}
-					}
-					continue
-				}
-			case *ssa.Return:
-				if last {
-					vb.Term = "return"
-					continue
-				}
-			case *ssa.Panic:
-				if last {
-					vb.Term = "panic"
-					continue
-				}
-			case *ssa.Phi:
-				if i == 0 {
-					all := len(x.Edges) > 0
-					var ints []int64
-					for _, e := range x.Edges {
-						c, ok := constInt(e)
-						if !ok {
-							all = false
-							break
-						}
-						ints = append(ints, c)
-					}
-					if all {
-						vb.PhiInts = ints
-					}
-				}
-			}
-			// printed form without the value name of block-index-dependent operands
-			switch x := instr.(type) {
-			case *ssa.Phi:
-				vb.Body = append(vb.Body, "phi/"+x.Comment)
-			case *ssa.BinOp:
-				if _, ok := x.X.(*ssa.Phi); ok {
-					vb.Body = append(vb.Body, "binop-on-phi "+x.Op.String())
-				} else {
-					vb.Body = append(vb.Body, instr.String())
-				}
-			default:
-				if instr == nil {
-					vb.Body = append(vb.Body, "<nil>")
-				} else if _, ok := instr.(ssa.Value); ok || true {
-					vb.Body = append(vb.Body, verifSafeString(instr))
-				}
-			}
-		}
-		out = append(out, vb)
+	v.instrs[i] = len(v.instrs)
+	return v.instrs[i]
+}
+
+func verifConstInt(v ssa.Value) (int64, bool) {
+	c, ok := v.(*ssa.Const)
+	if !ok || c.Value == nil || c.Value.Kind() != constant.Int {
+		return 0, false
 	}
-	return out
+	return c.Int64(), true
 }
 
 func verifSafeString(i ssa.Instruction) (s string) {
@@ -157,10 +95,82 @@ func verifSafeString(i ssa.Instruction) (s string) {
 	return i.String()
 }
 
+func verifDumpBlocks(fn *ssa.Function, ids *verifIDs) []VerifBlock {
+	for _, b := range fn.Blocks {
+		ids.block(b)
+	}
+	var out []VerifBlock
+	for _, b := range fn.Blocks {
+		vb := VerifBlock{ID: ids.block(b), Comment: b.Comment, Term: "none", TermID: -1, Succs: []int{}, Preds: []int{}, Instrs: []VerifInstr{}, CondInstr: -1, CondPhi: -1}
+		for _, s := range b.Succs {
+			vb.Succs = append(vb.Succs, ids.block(s))
+		}
+		for _, p := range b.Preds {
+			vb.Preds = append(vb.Preds, ids.block(p))
+		}
+		for i, instr := range b.Instrs {
+			last := i == len(b.Instrs)-1
+			if last {
+				switch x := instr.(type) {
+				case *ssa.Jump:
+					vb.Term, vb.TermID = "jump", ids.instr(instr)
+					continue
+				case *ssa.If:
+					vb.Term, vb.TermID = "if", ids.instr(instr)
+					if bo, ok := x.Cond.(*ssa.BinOp); ok && bo.Block() == b || ok && verifIn(b, bo) {
+						if c, ok := verifConstInt(bo.Y); ok {
+							if phi, ok := bo.X.(*ssa.Phi); ok {
+								vb.CondInstr, vb.CondPhi, vb.CondOp, vb.CondInt = ids.instr(bo), ids.instr(phi), bo.Op.String(), c
+							}
+						}
+					}
+					continue
+				case *ssa.Return:
+					vb.Term, vb.TermID = "return", ids.instr(instr)
+					continue
+				case *ssa.Panic:
+					vb.Term, vb.TermID = "panic", ids.instr(instr)
+					continue
+				}
+			}
+			vi := VerifInstr{ID: ids.instr(instr), Kind: "other"}
+			switch x := instr.(type) {
+			case *ssa.Phi:
+				vi.Kind = "phi"
+				for _, e := range x.Edges {
+					if c, ok := verifConstInt(e); ok {
+						cc := c
+						vi.Edges = append(vi.Edges, &cc)
+					} else {
+						vi.Edges = append(vi.Edges, nil)
+					}
+				}
+			case *ssa.BinOp:
+				vi.Kind = "binop"
+			}
+			if s := verifSafeString(instr); !strings.Contains(s, "phi") {
+				vi.Text = s
+			}
+			vb.Instrs = append(vb.Instrs, vi)
+		}
+		out = append(out, vb)
+	}
+	return out
+}
+
+func verifIn(b *ssa.BasicBlock, i ssa.Instruction) bool {
+	for _, x := range b.Instrs {
+		if x == i {
+			return true
+		}
+	}
+	return false
+}
+
 // VerifDump parses src (one file, no imports), builds SSA like garble does, and for every function
-// dumps its blocks before and after the named pass run with a generator seeded with seed.
-//   pass: "flatten", "junk:<count>", "split", "trash:<count>"
-func VerifDump(src string, seed int64, pass string, count int) (res []VerifFunc, err error) {
+// applies the named passes one after the other with one generator seeded with seed, dumping the
+// blocks after each.  passes: "flatten", "junk" (one junk jump), "split", "trash" (one trash block).
+func VerifDump(src string, seed int64, passes []string) (res []VerifFunc, err error) {
 	fset := token.NewFileSet()
 	f, err := parser.ParseFile(fset, "p.go", src, parser.ParseComments)
 	if err != nil {
@@ -171,46 +181,64 @@ func VerifDump(src string, seed int64, pass string, count int) (res []VerifFunc,
 	if err != nil {
 		return nil, err
 	}
-	var names []string
+	var fns []*ssa.Function
 	for name, m := range ssaPkg.Members {
-		if _, ok := m.(*ssa.Function); ok && name != "init" {
-			names = append(names, name)
+		if fn, ok := m.(*ssa.Function); ok && name != "init" {
+			fns = append(fns, fn)
+		}
+		if t, ok := m.(*ssa.Type); ok {
+			for _, typ := range []types.Type{t.Type(), types.NewPointer(t.Type())} {
+				ms := ssaPkg.Prog.MethodSets.MethodSet(typ)
+				for i := 0; i < ms.Len(); i++ {
+					if fn := ssaPkg.Prog.MethodValue(ms.At(i)); fn != nil && fn.Synthetic == "" {
+						fns = append(fns, fn)
+					}
+				}
+			}
 		}
 	}
-	sort.Strings(names)
-	for _, name := range names {
-		fn := ssaPkg.Members[name].(*ssa.Function)
-		if len(fn.Blocks) == 0 {
+	sort.Slice(fns, func(i, j int) bool { return fns[i].String() < fns[j].String() })
+	seen := map[*ssa.Function]bool{}
+	for _, fn := range fns {
+		if len(fn.Blocks) == 0 || seen[fn] {
 			continue
 		}
-		vf := VerifFunc{Name: name}
-		ids := map[*ssa.BasicBlock]int{}
-		vf.Before = verifDumpBlocks(fn, ids)
-		func() {
-			defer func() {
-				if e := recover(); e != nil {
-					vf.Panic = "panic"
+		seen[fn] = true
+		vf := VerifFunc{Name: fn.String()}
+		ids := &verifIDs{blocks: map[*ssa.BasicBlock]int{}, instrs: map[ssa.Instruction]int{}}
+		vf.Stages = append(vf.Stages, VerifStage{Pass: "initial", Ok: true, Blocks: verifDumpBlocks(fn, ids)})
+		r := mathrand.New(mathrand.NewSource(seed))
+		for _, pass := range passes {
+			st := VerifStage{Pass: pass}
+			func() {
+				defer func() {
+					if e := recover(); e != nil {
+						st.Panic = "panic"
+					}
+				}()
+				switch pass {
+				case "flatten":
+					info := applyFlattening(fn, r)
+					st.Ok = info != nil
+					for _, c := range info {
+						st.Info = append(st.Info, [2]int64{c.StoreVar.(*ssa.Const).Int64(), c.CompareVar.(*ssa.Const).Int64()})
+					}
+				case "junk":
+					addJunkBlocks(fn, 1, r)
+					st.Ok = true
+				case "split":
+					st.Ok = applySplitting(fn, r)
+				case "trash":
+					addTrashBlockMarkers(fn, 1, r)
+					st.Ok = true
 				}
 			}()
-			r := mathrand.New(mathrand.NewSource(seed))
-			switch pass {
-			case "flatten":
-				info := applyFlattening(fn, r)
-				vf.Ok = info != nil
-				for _, c := range info {
-					vf.Info = append(vf.Info, [2]int64{c.StoreVar.(*ssa.Const).Int64(), c.CompareVar.(*ssa.Const).Int64()})
-				}
-			case "junk":
-				addJunkBlocks(fn, count, r)
-				vf.Ok = true
-			case "split":
-				vf.Ok = applySplitting(fn, r)
-			case "trash":
-				addTrashBlockMarkers(fn, count, r)
-				vf.Ok = true
+			st.Blocks = verifDumpBlocks(fn, ids)
+			vf.Stages = append(vf.Stages, st)
+			if st.Panic != "" {
+				break
 			}
-		}()
-		vf.After = verifDumpBlocks(fn, ids)
+		}
 		res = append(res, vf)
 	}
 	return res, nil
